@@ -115,6 +115,21 @@ func networkScope(p *an.Prog) map[*ssa.Function]bool {
 	return p.Reach(roots...)
 }
 
+func boundsExceptionFor(name string) (struct {
+	max    int
+	reason string
+}, bool) {
+	for k, v := range boundsExceptions {
+		if an.NormRecv(k) == an.NormRecv(name) {
+			return v, true
+		}
+	}
+	return struct {
+		max    int
+		reason string
+	}{}, false
+}
+
 // bounds exceptions: function -> (max sites, reason)
 var boundsExceptions = map[string]struct {
 	max    int
@@ -324,7 +339,7 @@ func runC15(p *an.Prog, r *an.Run, tier string) {
 				r.Ok("bounds", key, e.Pos(), "guard: "+how)
 				continue
 			}
-			if ex, ok := boundsExceptions[name]; ok {
+			if ex, ok := boundsExceptionFor(name); ok {
 				used[name]++
 				if used[name] <= ex.max {
 					r.Ok("bounds", key, e.Pos(), "named exception: "+ex.reason)
@@ -445,7 +460,7 @@ func runC15(p *an.Prog, r *an.Run, tier string) {
 			case *ssa.TypeAssert:
 				if !x.CommaOk {
 					nAssert++
-					if an.FuncName(fn) == "(*jsonrpc2.Method).Call" && isErrorIface(x.AssertedType) {
+					if an.NormRecv(an.FuncName(fn)) == "(jsonrpc2.Method).Call" && isErrorIface(x.AssertedType) {
 						return // reply[ErrPos].Interface().(error): the result's static type was checked to be error at registration
 					}
 					bad = append(bad, "unchecked type assertion to "+x.AssertedType.String()+" in "+an.FuncName(fn)+" at "+p.Pos(x.Pos())+" panics when the dynamic type differs")
@@ -458,7 +473,7 @@ func runC15(p *an.Prog, r *an.Run, tier string) {
 			case ssa.CallInstruction:
 				if an.IsBigIntMethod(x, "Div", "Quo", "Mod", "Rem", "DivMod", "QuoRem") {
 					// divisor must be guarded non-zero: the only division is intervalCredit's, guarded by C02.div-guard
-					if an.FuncName(fn) != "(*balance.payPerInterval).intervalCredit" {
+					if an.NormRecv(an.FuncName(fn)) != "(balance.payPerInterval).intervalCredit" {
 						bad = append(bad, "big.Int division in "+an.FuncName(fn)+" at "+p.Pos(x.Pos())+" panics on a zero divisor")
 					}
 				}
